@@ -35,6 +35,37 @@ def sh(cmd, env=None, cwd=None, timeout=3600):
     return p.returncode, p.stdout.decode('utf-8', 'replace')
 
 
+def baseline_keys(base, props, tier):
+    """Violation keys of the checks on the unpatched tree of an old commit
+    (cached in .work/)."""
+    cache = os.path.join(VERIF, '.work', 'baseline_keys.json')
+    try:
+        data = json.load(open(cache))
+    except (OSError, ValueError):
+        data = {}
+    vh = sh(['git', '-C', VERIF, 'rev-parse', '--short', 'HEAD'])[1].strip()
+    out = {}
+    wt = None
+    for p in props:
+        k = '%s %s %s %s' % (base, p, tier, vh)
+        if k not in data:
+            if wt is None:
+                wt = '/tmp/wt/base_%s_%d' % (base, os.getpid())
+                sh(['git', '-C', '/repo', 'worktree', 'add', '--detach', wt,
+                    base])
+            rc, o = sh([PY, os.path.join(VERIF, 'vcheck.py'), '--property',
+                        p, '--tier', tier], env={'VERIF_REPO': wt},
+                       cwd=VERIF, timeout=7200)
+            data[k] = re.findall(r'^  key: (.*)$', o, re.M)
+            os.makedirs(os.path.dirname(cache), exist_ok=True)
+            json.dump(data, open(cache, 'w'), indent=1)
+        out[p] = data[k]
+    if wt:
+        sh(['git', '-C', '/repo', 'worktree', 'remove', '--force', wt])
+        shutil.rmtree(wt, ignore_errors=True)
+    return out
+
+
 def main():
     ap = argparse.ArgumentParser()
     ap.add_argument('seed_id')
@@ -61,11 +92,30 @@ def main():
     if rc:
         print(out)
         return 2
+    base_keys = {}
     try:
         rc, out = sh(['git', '-C', wt, 'apply', os.path.abspath(patch)])
-        if rc:
+        if rc and a.base == 'HEAD':
+            # the repository has moved on: merge the change into HEAD
+            sh(['git', '-C', wt, 'checkout', '--', '.'])
+            rc, out2 = sh(['git', '-C', wt, 'apply', '--3way',
+                           os.path.abspath(patch)])
+            conflict = rc or 'with conflicts' in out2 or sh(
+                'grep -rl "^<<<<<<< " yatiml', cwd=wt)[1].strip()
+            if conflict:
+                print('patch does not apply:', out, out2[-300:])
+                return 2
+            sh(['git', '-C', wt, 'reset', '-q'])
+            meta['applied'] = 'three-way merge onto HEAD'
+            print('applied by three-way merge')
+        elif rc:
             print('patch does not apply:', out)
             return 2
+        if a.base != 'HEAD':
+            # checks also fire on defects the old tree still had: only keys
+            # that the unpatched old tree does not produce count
+            base_keys = baseline_keys(a.base, props, a.tier)
+            meta['applied'] = 'on the commit it was written for (%s)' % a.base
         meta['repo_head'] = sh(['git', '-C', '/repo', 'rev-parse', '--short',
                                 a.base])[1].strip()
         env = {'PYTHONPATH': wt, 'PYTHONDONTWRITEBYTECODE': '1'}
@@ -98,6 +148,8 @@ def main():
                           p, '--tier', a.tier], env={'VERIF_REPO': wt},
                          cwd=VERIF, timeout=7200)
             keys = re.findall(r'^  key: (.*)$', out, re.M)
+            if base_keys.get(p):
+                keys = [k for k in keys if k not in base_keys[p]]
             meta['checks'][p] = {
                 'tier': a.tier, 'exit': rc, 'violation_keys': keys[:12],
                 'wall_s': round(time.time() - t0, 1),
